@@ -134,8 +134,9 @@ Rn(e, n) ==
                     [lbtk |-> n + Len(o.ts) + 1, rbtk |-> n + Len(o.ts) + 2 + Len(inner)]))
     [] e.k = "call" ->
          LET r == RnList(e.as, n + 2, 1)
-         IN Res(<<Tk(e.f, FALSE), Tk("(", TRUE)>> \o r.ts \o <<Tk(")", FALSE)>>,
-                Ann([e EXCEPT !.as = r.es], [nametk |-> n + 1, lptk |-> n + 2, rptk |-> n + 3 + Len(r.ts)]))
+             tc == IF e.tc /\ Len(e.as) > 0 THEN <<Tk(",", TRUE)>> ELSE <<>>      \* a trailing comma after the last argument (a line break may follow it)
+         IN Res(<<Tk(e.f, FALSE), Tk("(", TRUE)>> \o r.ts \o tc \o <<Tk(")", FALSE)>>,
+                Ann([e EXCEPT !.as = r.es], [nametk |-> n + 1, lptk |-> n + 2, rptk |-> n + 3 + Len(r.ts) + Len(tc)]))
     [] e.k = "attr" ->
          LET RECURSIVE Parts(_)
              Parts(i) == IF i > Len(e.parts) THEN <<>>
